@@ -31,7 +31,9 @@ ASSUMPTIONS = ["checkers are total predicates returning bool (a checker that rai
 N_HIST = {"quick": 400, "thorough": 15000}
 
 NAMES = ["custom", "Custom", "CUSTOM", "email", "e-mail", "", " ", "uuid", "UUID", "Uuid", "date-time", "Date-Time", "date_time", "datetime",
-         "uuid ", "ipv4", "x" * 40, "é", "É", "ß", "SS", "ss", "ſ", "K", "K", "k"]
+         "uuid ", "ipv4", "x" * 40, "é", "É", "ß", "SS", "ss", "ſ", "K", "K", "k",
+         # names that mean something to a formatting / templating layer
+         "x-{tenant}-id", "{}", "{0}", "set{", "}", "%s", "%(a)s", "$x", "back\\slash", "quo'te", 'dq"', "new\nline"]
 STRINGS = ["", "a", "ab", "abc", "A", "123", "12", "a1", "Abc", "  ", "é", "00000000-0000-0000-0000-000000000000", "2020-01-01T00:00:00Z",
            "not-a-uuid", "2020-13-01T00:00:00Z", "12345678123456781234567812345678", "x" * 50, "\n", "1e5", "true"]
 NON_STRINGS = [0, 1, -1, 2.5, True, False, None, [], ["a"], {}, {"a": "b"}, 10 ** 30]
@@ -74,6 +76,16 @@ class Logged:
         res = self.fn(value)
         self.log.append((self.ident, value, res))
         return res
+
+
+def logged_closure(ident, fn, log):
+    """The same as `Logged`, written as a plain function made by a factory: every checker made here shares one code object
+    and differs only in what it closes over (how `functools`-free user code usually parametrises checkers)."""
+    def checker(value):
+        res = fn(value)
+        log.append((ident, value, res))
+        return res
+    return checker
 
 
 class Flip:
@@ -143,7 +155,7 @@ def run_history(drv, steps, out, stats, label):
                 else:
                     fn = PREDICATES[pid]
                 ident = f"{pid}#{idx}"
-                format_checker.register(name)(Logged(ident, fn, log))
+                format_checker.register(name)(Logged(ident, fn, log) if idx % 2 else logged_closure(ident, fn, log))
                 current[name] = (ident, fn)
                 model_ops.append({"register": name, "checker": pid})
                 stats["register"] = stats.get("register", 0) + 1
